@@ -1,0 +1,40 @@
+//go:build verif
+
+package bls
+
+// Read-only wrappers for the conformance harness (build tag verif only).
+
+// VerifChoose returns the k-subsets of 1..n in the order chooseKoutOfN enumerates them.
+func VerifChoose(n, k int) [][]int64 {
+	var res [][]int64
+	chooseKoutOfN(n, k, func(s []int64) {
+		res = append(res, append([]int64(nil), s...))
+	})
+	return res
+}
+
+// VerifLagrange returns the bytes of the Lagrange coefficient at zero of evaluation point i among the given points.
+func VerifLagrange(i int64, points []int64) []byte {
+	return lagrangeCoefficient(i, points...).Bytes()
+}
+
+// VerifReconstruct interpolates the secret from the shares (indexed by evaluation point - 1) at the given evaluation points.
+func VerifReconstruct(shares [][]byte, points []int64) []byte {
+	s := make(Shares, len(shares))
+	for i, b := range shares {
+		s[i] = c.NewZrFromBytes(b)
+	}
+	return s.reconstruct(points...).Bytes()
+}
+
+// VerifGen deals shares of a fresh random secret: returns the polynomial coefficients and the n shares (bytes).
+func VerifGen(n, t int, rnd interface{ Read([]byte) (int, error) }) (poly [][]byte, shares [][]byte) {
+	p, s := (&SSS{Threshold: t}).Gen(n, rnd)
+	for _, x := range p {
+		poly = append(poly, x.Bytes())
+	}
+	for _, x := range s {
+		shares = append(shares, x.Bytes())
+	}
+	return
+}
